@@ -390,9 +390,8 @@ Qed.
 
 Lemma last_app_ne {A} (a b : list A) d : b <> [] -> last (a ++ b) d = last b d.
 Proof.
-  intros Hb. induction a as [|x a IH]; [reflexivity|]. cbn [app].
-  destruct (a ++ b) eqn:E; [destruct a; [cbn in E; congruence | discriminate]|].
-  cbn [last]. rewrite <- E. exact IH.
+  intros Hb. destruct (exists_last Hb) as (b' & z & ->).
+  rewrite app_assoc, !last_last. reflexivity.
 Qed.
 
 Lemma st_wf_partial_gen d :
@@ -422,7 +421,7 @@ Proof.
         by (rewrite !app_length; reflexivity).
       rewrite nibbles_partial.
       destruct tp.
-      * rewrite firstn_app_exact, skipn_app_exact by (symmetry; exact Hlen).
+      * rewrite firstn_app_exact, skipn_app_exact by exact Hlen.
         rewrite and_lo by assumption.
         destruct (shr_loop_spec (d0 mod 16) dr Hd0l Hdr) as [L1 L2].
         rewrite nibbles_full, !bnibs_app, bnibs_mk, L1 by assumption. split.
@@ -431,7 +430,7 @@ Proof.
            cbn [firstn]. rewrite <- !app_assoc. reflexivity.
         -- apply st_wf_full. apply Forall_app. split; [|assumption].
            apply Forall_app. split; [assumption|]. repeat constructor. lia.
-      * rewrite firstn_app_exact, skipn_app_exact by (symmetry; exact Hlen).
+      * rewrite firstn_app_exact, skipn_app_exact by exact Hlen.
         destruct (shl_loop_spec d0 dr Hbt) as (L1 & L2 & L3).
         assert (Hne : shl_loop (d0 :: dr) (dr ++ [0]) <> []).
         { intros E. rewrite E in L1. cbn in L1. destruct (bnibs dr); discriminate. }
@@ -463,13 +462,14 @@ Proof.
     rewrite on_last_app. rewrite or_disjoint; try lia; [|left; split; [apply mul16_mod | assumption]].
     rewrite nibbles_partial. destruct sp.
     + destruct (Hps eq_refl) as (sd' & y & -> & Hy). apply Forall_app in Hbs as [Hbs' _].
-      rewrite app_assoc, !nibbles_partial, !bnibs_app, bnibs_mk by assumption.
-      rewrite <- !app_assoc. split; [reflexivity|].
-      apply st_wf_partial; [|assumption]. apply Forall_app. split; [|assumption].
-      apply Forall_app. split; [assumption|]. repeat constructor. lia.
+      rewrite (app_assoc (fd' ++ [16 * x + mid]) sd' [16 * y]).
+      rewrite !nibbles_partial, !bnibs_app, bnibs_mk by assumption. split.
+      * rewrite <- !app_assoc. reflexivity.
+      * apply st_wf_partial; [|assumption]. apply Forall_app. split; [|assumption].
+        apply Forall_app. split; [assumption|]. repeat constructor. lia.
     + rewrite !nibbles_full, !bnibs_app, bnibs_mk by assumption. rewrite <- !app_assoc.
-      split; [reflexivity|]. apply st_wf_full. apply Forall_app. split; [|assumption].
-      apply Forall_app. split; [assumption|]. repeat constructor. lia.
+      split; [reflexivity|]. apply st_wf_full.
+      repeat (apply Forall_app; split); try assumption; repeat constructor; lia.
   - rewrite shl_byte by lia. rewrite (N.mod_small mid) by assumption. rewrite nibbles_full.
     destruct sp; cbn [negb].
     + destruct (Hps eq_refl) as (sd' & y & -> & Hy).
@@ -478,7 +478,7 @@ Proof.
       rewrite nibbles_full, bnibs_app, L1, nibbles_partial. split.
       * f_equal. rewrite app_length, bnibs_app, bnibs_mk0. cbn [length].
         replace (2 * (length sd' + 1))%nat with (S (length (bnibs sd' ++ [y]))) by (rewrite app_length, bnibs_length; cbn; lia).
-        cbn [firstn]. f_equal. rewrite (app_assoc (bnibs sd') [y] [0]). apply firstn_app_exact. reflexivity.
+        cbn [firstn]. f_equal. change [y; 0] with ([y] ++ [0]). rewrite app_assoc. apply firstn_app_exact. reflexivity.
       * apply st_wf_full. apply Forall_app. split; assumption.
     + rewrite <- app_assoc. rewrite firstn_app_exact, skipn_app_exact by reflexivity.
       assert (Hb0 : bytes_ok (sd ++ [0])) by (apply Forall_app; split; [assumption | repeat constructor; lia]).
@@ -506,4 +506,306 @@ Proof.
            assert (Y : [z mod 16] = [0]).
            { apply (f_equal (@rev N)) in Hn. rewrite !rev_app_distr in Hn. cbn in Hn. inversion Hn. reflexivity. }
            inversion Y. reflexivity.
+Qed.
+
+(** * Iterators *)
+
+(** Every iterator of the code is an iterator over a stem ([Stem::iter]) or over a key
+    ([StemIter::new], a stem without partial byte), advanced to some position. *)
+Definition it_of (s : stem) (pos : nat) : iter := mkIter (st_data s) pos (st_len s).
+
+Lemma stem_iter_it_of s : stem_iter s = it_of s 0.
+Proof. reflexivity. Qed.
+
+Lemma iter_new_it_of key : iter_new key = it_of (mkStem key false) 0.
+Proof. reflexivity. Qed.
+
+Lemma nth_firstn' {A} (d : A) i n l : (i < n)%nat -> nth i (firstn n l) d = nth i l d.
+Proof.
+  revert n l. induction i as [|i IH]; intros [|n] [|a l] H; cbn; try lia; try reflexivity.
+  apply IH. lia.
+Qed.
+
+Lemma nibbles_nth s pos :
+  st_wf s = true -> (pos < st_len s)%nat ->
+  nth pos (nibbles s) 0 =
+  if Nat.even pos then nth (pos / 2) (st_data s) 0 / 16 else nth (pos / 2) (st_data s) 0 mod 16.
+Proof.
+  intros Hwf Hp. pose proof (st_len_le s) as Hle. unfold nibbles. rewrite nth_firstn' by assumption.
+  destruct (Nat.even pos) eqn:E.
+  - apply even_half in E. rewrite E at 1. apply bnibs_nth_even. lia.
+  - apply odd_half in E. rewrite E at 1. apply bnibs_nth_odd. lia.
+Qed.
+
+Theorem it_next_spec s pos :
+  st_wf s = true ->
+  it_next (it_of s pos) =
+  if Nat.ltb pos (st_len s) then (Some (nth pos (nibbles s) 0), it_of s (S pos)) else (None, it_of s pos).
+Proof.
+  intros Hwf. unfold it_next, it_of. cbn [it_pos it_len it_data].
+  destruct (Nat.ltb_spec pos (st_len s)) as [Hlt|Hge]; [|reflexivity].
+  destruct (st_wf_shape s Hwf) as [Hb _]. pose proof (st_len_le s) as Hle.
+  assert (Hv : nth (pos / 2) (st_data s) 0 < 256) by (apply Forall_nth'; [assumption | lia]).
+  rewrite nibbles_nth by assumption. rewrite shr_and_hi, and_lo by assumption. reflexivity.
+Qed.
+
+Lemma st_len_parity s : st_wf s = true -> Nat.odd (st_len s) = st_partial s.
+Proof.
+  intros Hwf. destruct (st_wf_shape s Hwf) as [_ Hp]. unfold st_len. destruct (st_partial s).
+  - destruct (Hp eq_refl) as (d & x & -> & _). rewrite app_length. cbn [length].
+    replace (2 * (length d + 1) - 1)%nat with (1 + 2 * length d)%nat by lia.
+    rewrite Nat.odd_add_mul_2. reflexivity.
+  - replace (2 * length (st_data s))%nat with (0 + 2 * length (st_data s))%nat by lia.
+    rewrite Nat.odd_add_mul_2. reflexivity.
+Qed.
+
+Lemma odd_sub_even a q : (2 * q <= a)%nat -> Nat.odd (a - 2 * q) = Nat.odd a.
+Proof.
+  intros H. replace a with ((a - 2 * q) + 2 * q)%nat at 2 by lia. rewrite Nat.odd_add_mul_2. reflexivity.
+Qed.
+
+Lemma lts_loop_spec x bs :
+  x < 16 -> bytes_ok bs ->
+  exists out y, lts_loop (16 * x) bs = (out, 16 * y) /\ y < 16 /\ bytes_ok out
+                /\ bnibs out ++ [y] = x :: bnibs bs.
+Proof.
+  intros Hx Hb. revert x Hx. induction Hb as [|b bs Hb0 _ IH]; intros x Hx.
+  - exists [], x. cbn. repeat split; auto.
+  - cbn [lts_loop]. rewrite and_lo, shr_and_hi by assumption.
+    pose proof (mod16_lt b) as Hm. pose proof (div16_lt b Hb0) as Hd.
+    rewrite shl_byte by lia. rewrite (N.mod_small (b mod 16)) by assumption.
+    destruct (IH (b mod 16) Hm) as (out & y & E & Hy & Ho & Hn). rewrite E.
+    rewrite or_disjoint; try lia; [|left; split; [apply mul16_mod | assumption]].
+    exists ((16 * x + b / 16) :: out), y. repeat split; auto.
+    + constructor; [lia | assumption].
+    + change (bnibs ((16 * x + b / 16) :: out)) with (bnibs [16 * x + b / 16] ++ bnibs out).
+      rewrite bnibs_mk by assumption. cbn [app bnibs]. rewrite Hn. reflexivity.
+Qed.
+
+Lemma bnibs_skipn_odd q d :
+  (q < length d)%nat -> skipn (2 * q + 1) (bnibs d) = nth q d 0 mod 16 :: bnibs (skipn (S q) d).
+Proof.
+  revert d. induction q as [|q IH]; intros [|b d] H; cbn [length] in *; try lia; [reflexivity|].
+  replace (2 * S q + 1)%nat with (S (S (2 * q + 1))) by lia. cbn [bnibs skipn nth]. apply IH. lia.
+Qed.
+
+Theorem last_to_stem_spec s pos p :
+  st_wf s = true -> (p <= st_len s)%nat ->
+  nibbles (last_to_stem (it_of s pos) p) = skipn p (nibbles s)
+  /\ st_wf (last_to_stem (it_of s pos) p) = true.
+Proof.
+  intros Hwf Hp. destruct (st_wf_shape s Hwf) as [Hb Hps]. pose proof (st_len_parity s Hwf) as Hpar.
+  unfold last_to_stem, it_of. cbn [it_data it_len it_pos]. unfold stem_new.
+  destruct (Nat.even p) eqn:E.
+  - apply even_half in E. set (q := (p / 2)%nat) in *. clearbody q. subst p.
+    rewrite odd_sub_even, Hpar by assumption.
+    destruct s as [d sp]. cbn [st_data st_partial] in *. destruct sp.
+    + destruct (Hps eq_refl) as (d' & x & -> & Hx). apply Forall_app in Hb as [Hb' _].
+      unfold st_len in Hp. cbn [st_data st_partial] in Hp. rewrite app_length in Hp. cbn [length] in Hp.
+      rewrite skipn_app. replace (q - length d')%nat with O by lia. cbn [skipn].
+      rewrite !nibbles_partial, bnibs_skipn. split.
+      * rewrite skipn_app. rewrite bnibs_length. replace (2 * q - 2 * length d')%nat with O by lia. reflexivity.
+      * apply st_wf_partial; [apply Forall_skipn'; assumption | assumption].
+    + rewrite !nibbles_full, bnibs_skipn. split; [reflexivity|]. apply st_wf_full. apply Forall_skipn'. assumption.
+  - apply odd_half in E. set (q := (p / 2)%nat) in *. clearbody q. subst p.
+    pose proof (st_len_le s) as Hle.
+    assert (Hq : (q < length (st_data s))%nat) by lia.
+    assert (Hbq : nth q (st_data s) 0 < 256) by (apply Forall_nth'; [assumption | lia]).
+    rewrite and_lo by assumption. pose proof (mod16_lt (nth q (st_data s) 0)) as Hm.
+    rewrite shl_byte by lia. rewrite (N.mod_small _ 16 Hm).
+    replace (q + 1)%nat with (S q) by lia.
+    destruct (lts_loop_spec (nth q (st_data s) 0 mod 16) (skipn (S q) (st_data s)) Hm (Forall_skipn' _ _ _ Hb))
+      as (out & y & EL & Hy & Ho & Hn).
+    rewrite EL.
+    assert (Hodd : Nat.odd (st_len s - (2 * q + 1)) = negb (st_partial s)).
+    { rewrite <- Hpar. destruct (st_len s) as [|n] eqn:En; [lia|].
+      replace (S n - (2 * q + 1))%nat with (n - 2 * q)%nat by lia.
+      rewrite odd_sub_even by lia. rewrite Nat.odd_succ, <- Nat.negb_odd, negb_involutive. reflexivity. }
+    rewrite Hodd.
+    destruct s as [d sp]. cbn [st_data st_partial negb] in *. destruct sp; cbn [negb].
+    + destruct (Hps eq_refl) as (d' & z & -> & Hz).
+      rewrite nibbles_full, nibbles_partial.
+      unfold st_len in Hp. cbn [st_data st_partial] in Hp. rewrite app_length in Hp. cbn [length] in Hp.
+      rewrite <- bnibs_skipn_odd in Hn by assumption.
+      rewrite bnibs_app, bnibs_mk0 in Hn.
+      change [z; 0] with ([z] ++ [0]) in Hn. rewrite app_assoc in Hn.
+      rewrite skipn_app in Hn.
+      replace (2 * q + 1 - length (bnibs d' ++ [z]))%nat with O in Hn
+        by (rewrite app_length, bnibs_length; cbn; lia).
+      cbn [skipn] in Hn. apply app_inj_tail in Hn as [Hn _]. split; [exact Hn|].
+      apply st_wf_full. assumption.
+    + rewrite nibbles_full. rewrite <- bnibs_skipn_odd in Hn by assumption. split.
+      * apply (nibbles_partial_of _ _ 0). rewrite bnibs_app, bnibs_mk0.
+        change [y; 0] with ([y] ++ [0]). rewrite app_assoc, Hn. reflexivity.
+      * apply st_wf_partial; assumption.
+Qed.
+
+Theorem to_stem_spec s pos :
+  st_wf s = true -> (pos <= st_len s)%nat ->
+  nibbles (to_stem (it_of s pos)) = skipn pos (nibbles s) /\ st_wf (to_stem (it_of s pos)) = true.
+Proof. intros. unfold to_stem. cbn [it_pos it_of]. apply last_to_stem_spec; assumption. Qed.
+
+Theorem consumed_to_stem_spec s pos :
+  st_wf s = true -> (pos <= st_len s)%nat ->
+  nibbles (consumed_to_stem (it_of s pos)) = firstn (pos - 1) (nibbles s)
+  /\ st_wf (consumed_to_stem (it_of s pos)) = true.
+Proof.
+  intros Hwf Hp. destruct (st_wf_shape s Hwf) as [Hb _]. pose proof (st_len_le s) as Hle.
+  unfold consumed_to_stem, it_of. cbn [it_pos it_data]. destruct pos as [|nl].
+  - split; reflexivity.
+  - replace (S nl - 1)%nat with nl by lia.
+    assert (Hf : firstn nl (nibbles s) = firstn nl (bnibs (st_data s))).
+    { unfold nibbles. rewrite firstn_firstn. f_equal. lia. }
+    rewrite Hf. unfold stem_new. destruct (Nat.even nl) eqn:E.
+    + rewrite <- Nat.negb_even, E. cbn [negb]. apply even_half in E.
+      rewrite nibbles_full, bnibs_firstn, <- E. split; [reflexivity|].
+      apply st_wf_full. apply Forall_firstn'. assumption.
+    + rewrite <- Nat.negb_even, E. cbn [negb]. apply odd_half in E.
+      set (q := (nl / 2)%nat) in *. clearbody q.
+      assert (Hq : (q < length (st_data s))%nat) by lia.
+      assert (Hbq : nth q (st_data s) 0 < 256) by (apply Forall_nth'; [assumption | lia]).
+      rewrite and_hi by assumption. rewrite nibbles_partial, bnibs_firstn. split.
+      * rewrite E. replace (2 * q + 1)%nat with (S (2 * q)) by lia.
+        rewrite (firstn_succ_nth 0) by (rewrite bnibs_length; lia).
+        rewrite bnibs_nth_even by assumption. reflexivity.
+      * apply st_wf_partial; [apply Forall_firstn'; assumption | apply div16_lt; assumption].
+Qed.
+
+(** * [follow_stem] on iterators is the classification of [Radix.follow_stem] on nibble lists *)
+
+Lemma skipn_nth_cons {A} (d : A) pos l : (pos < length l)%nat -> skipn pos l = nth pos l d :: skipn (S pos) l.
+Proof.
+  revert l. induction pos as [|pos IH]; intros [|a l] H; cbn [length] in *; try lia; [reflexivity|].
+  cbn [skipn nth]. apply IH. lia.
+Qed.
+
+Lemma skipn_skipn' {A} a b (l : list A) : skipn a (skipn b l) = skipn (b + a) l.
+Proof.
+  revert l. induction b as [|b IH]; intros l; [reflexivity|].
+  destruct l as [|x l]; [destruct a; reflexivity|]. cbn [skipn Nat.add]. apply IH.
+Qed.
+
+Definition follow_expected (kpos spos : nat) (K P : list N) (r : follow) : ifollow * nat * nat :=
+  match r with
+  | FEqual => (IEqual, kpos + length K, spos + length P)%nat
+  | FKeyIsPrefix c _ => (IKeyIsPrefix c, kpos + length K, spos + length K + 1)%nat
+  | FStemIsPrefix c _ => (IStemIsPrefix c, kpos + length P + 1, spos + length P)%nat
+  | FDiff cm kc _ sc _ => (IDiff kc sc, kpos + length cm + 1, spos + length cm + 1)%nat
+  end.
+
+Lemma triple_eq sk ss (r r' : ifollow) a a' b b' :
+  r = r' -> a = a' -> b = b' -> (r, it_of sk a, it_of ss b) = (r', it_of sk a', it_of ss b').
+Proof. intros -> -> ->. reflexivity. Qed.
+
+Lemma follow_it_spec sk ss :
+  st_wf sk = true -> st_wf ss = true ->
+  forall fuel kpos spos,
+    (kpos <= st_len sk)%nat -> (spos <= st_len ss)%nat -> (st_len ss - spos <= fuel)%nat ->
+    follow_it fuel (it_of sk kpos) (it_of ss spos) =
+    (let K := skipn kpos (nibbles sk) in
+     let P := skipn spos (nibbles ss) in
+     let '(r, kp, sp) := follow_expected kpos spos K P (follow_stem K P) in
+     (r, it_of sk kp, it_of ss sp)).
+Proof.
+  intros Hk Hs. pose proof (nibbles_length sk Hk) as Lk. pose proof (nibbles_length ss Hs) as Ls.
+  induction fuel as [|fuel IH]; intros kpos spos Hkp Hsp Hf.
+  - (* no fuel: the stem is exhausted *)
+    assert (spos = st_len ss) by lia. subst spos.
+    cbn [follow_it]. rewrite (it_next_spec ss) by assumption. rewrite Nat.ltb_irrefl.
+    rewrite (it_next_spec sk) by assumption.
+    rewrite (skipn_all2 (nibbles ss)) by lia.
+    destruct (Nat.ltb_spec kpos (st_len sk)) as [Hlt|Hge].
+    + rewrite (skipn_nth_cons 0 kpos) by lia. cbn [follow_stem follow_expected length].
+      (apply triple_eq; [reflexivity | lia | lia]).
+    + rewrite (skipn_all2 (nibbles sk)) by lia. cbn [follow_stem follow_expected length]. (apply triple_eq; [reflexivity | lia | lia]).
+  - cbn [follow_it]. rewrite (it_next_spec ss) by assumption. rewrite (it_next_spec sk) by assumption.
+    destruct (Nat.ltb_spec spos (st_len ss)) as [Hslt|Hsge].
+    + rewrite (skipn_nth_cons 0 spos (nibbles ss)) by lia.
+      set (cs := nth spos (nibbles ss) 0).
+      destruct (Nat.ltb_spec kpos (st_len sk)) as [Hklt|Hkge].
+      * rewrite (skipn_nth_cons 0 kpos (nibbles sk)) by lia.
+        set (ck := nth kpos (nibbles sk) 0).
+        cbn [follow_stem]. rewrite (N.eqb_sym cs ck).
+        destruct (N.eqb_spec ck cs) as [E|E]; cbn [negb].
+        -- rewrite IH by lia. cbv zeta.
+           destruct (follow_stem (skipn (S kpos) (nibbles sk)) (skipn (S spos) (nibbles ss)));
+             cbn [follow_expected length]; (apply triple_eq; [reflexivity | lia | lia]).
+        -- cbn [follow_expected length]. (apply triple_eq; [reflexivity | lia | lia]).
+      * rewrite (skipn_all2 (nibbles sk)) by lia. cbn [follow_stem follow_expected length]. (apply triple_eq; [reflexivity | lia | lia]).
+    + assert (spos = st_len ss) by lia. subst spos.
+      rewrite (skipn_all2 (nibbles ss)) by lia.
+      destruct (Nat.ltb_spec kpos (st_len sk)) as [Hlt|Hge].
+      * rewrite (skipn_nth_cons 0 kpos) by lia. cbn [follow_stem follow_expected length]. (apply triple_eq; [reflexivity | lia | lia]).
+      * rewrite (skipn_all2 (nibbles sk)) by lia. cbn [follow_stem follow_expected length]. (apply triple_eq; [reflexivity | lia | lia]).
+Qed.
+
+(** The statement the callers rely on: a key iterator that has consumed [kpos] chunks of
+    [key] is followed along a fresh iterator over the stem [st]; the classification is
+    that of the nibble lists, and the stems the callers rebuild from the two iterators
+    ([to_stem], [consumed_to_stem], [last_to_stem(checkpoint)]) denote the remaining key,
+    the remaining stem, the common part and the key from the checkpoint. *)
+Theorem follow_iter_correct key kpos st :
+  Forall (fun b => b < 256) key -> st_wf st = true -> (kpos <= 2 * length key)%nat ->
+  let K := skipn kpos (nib key) in
+  let P := nibbles st in
+  let '(r, k', s') := follow_iter (it_of (mkStem key false) kpos) (stem_iter st) in
+  nibbles (last_to_stem k' kpos) = K /\
+  match follow_stem K P with
+  | FEqual => r = IEqual
+  | FKeyIsPrefix c ps => r = IKeyIsPrefix c /\ nibbles (to_stem s') = ps
+  | FStemIsPrefix c kr => r = IStemIsPrefix c /\ nibbles (to_stem k') = kr
+  | FDiff cm kc kr sc sr =>
+      r = IDiff kc sc /\ nibbles (consumed_to_stem s') = cm
+      /\ nibbles (to_stem k') = kr /\ nibbles (to_stem s') = sr
+  end.
+Proof.
+  intros Hkey Hst Hkp. cbv zeta.
+  set (sk := mkStem key false).
+  assert (Hsk : st_wf sk = true) by (apply st_wf_full; assumption).
+  assert (Lsk : st_len sk = (2 * length key)%nat) by reflexivity.
+  assert (Nsk : nibbles sk = nib key) by (unfold sk; rewrite nibbles_full; apply bnibs_nib).
+  unfold follow_iter. rewrite stem_iter_it_of. cbn [it_len it_of].
+  rewrite (follow_it_spec sk st Hsk Hst (st_len st) kpos 0) by lia.
+  cbv zeta. rewrite Nsk. cbn [skipn].
+  pose proof (follow_stem_spec (skipn kpos (nib key)) (nibbles st)) as HF.
+  pose proof (nibbles_length st Hst) as Lst.
+  assert (LK : length (skipn kpos (nib key)) = (2 * length key - kpos)%nat).
+  { rewrite skipn_length, <- bnibs_nib, bnibs_length. reflexivity. }
+  set (K := skipn kpos (nib key)) in *. set (P := nibbles st) in *.
+  assert (Hlts : forall kp, nibbles (last_to_stem (it_of sk kp) kpos) = K).
+  { intros kp. destruct (last_to_stem_spec sk kp kpos Hsk ltac:(lia)) as [X _]. rewrite X, Nsk. reflexivity. }
+  destruct (follow_stem K P) as [|c ps|c kr|cm kc kr sc sr]; cbn [follow_expected].
+  - split; [apply Hlts | reflexivity].
+  - split; [apply Hlts|]. split; [reflexivity|]. subst P.
+    destruct (to_stem_spec st (0 + length K + 1) Hst) as [X _].
+    { rewrite <- Lst, HF, app_length. cbn. lia. }
+    rewrite X, HF. replace (0 + length K + 1)%nat with (length (K ++ [c])) by (rewrite app_length; cbn; lia).
+    change (c :: ps) with ([c] ++ ps). rewrite app_assoc. apply skipn_app_exact. reflexivity.
+  - split; [apply Hlts|]. split; [reflexivity|].
+    destruct (to_stem_spec sk (kpos + length P + 1) Hsk) as [X _].
+    { assert (length K = length (P ++ c :: kr)) by (rewrite HF at 1; reflexivity).
+      rewrite app_length in *. cbn [length] in *. lia. }
+    rewrite X, Nsk.
+    assert (E : skipn (kpos + length P + 1) (nib key) = skipn (length P + 1) K).
+    { unfold K. rewrite skipn_skipn'. f_equal. lia. }
+    rewrite E, HF. replace (length P + 1)%nat with (length (P ++ [c])) by (rewrite app_length; cbn; lia).
+    change (c :: kr) with ([c] ++ kr). rewrite app_assoc. apply skipn_app_exact. reflexivity.
+  - destruct HF as (HK & HP & Hne). split; [apply Hlts|]. split; [reflexivity|].
+    assert (Hs1 : (0 + length cm + 1 <= st_len st)%nat).
+    { rewrite <- Lst. fold P. rewrite HP, app_length. cbn. lia. }
+    assert (Hk1 : (kpos + length cm + 1 <= st_len sk)%nat).
+    { assert (length K = length (cm ++ kc :: kr)) by (rewrite HK at 1; reflexivity).
+      rewrite app_length in *. cbn [length] in *. lia. }
+    split; [|split].
+    + destruct (consumed_to_stem_spec st (0 + length cm + 1) Hst Hs1) as [X _].
+      rewrite X. fold P. rewrite HP. replace (0 + length cm + 1 - 1)%nat with (length cm) by lia.
+      apply firstn_app_exact. reflexivity.
+    + destruct (to_stem_spec sk (kpos + length cm + 1) Hsk Hk1) as [X _]. rewrite X, Nsk.
+      assert (E : skipn (kpos + length cm + 1) (nib key) = skipn (length cm + 1) K).
+      { unfold K. rewrite skipn_skipn'. f_equal. lia. }
+      rewrite E, HK. replace (length cm + 1)%nat with (length (cm ++ [kc])) by (rewrite app_length; cbn; lia).
+      change (kc :: kr) with ([kc] ++ kr). rewrite app_assoc. apply skipn_app_exact. reflexivity.
+    + destruct (to_stem_spec st (0 + length cm + 1) Hst Hs1) as [X _]. rewrite X. fold P. rewrite HP.
+      replace (0 + length cm + 1)%nat with (length (cm ++ [sc])) by (rewrite app_length; cbn; lia).
+      change (sc :: sr) with ([sc] ++ sr). rewrite app_assoc. apply skipn_app_exact. reflexivity.
 Qed.
